@@ -26,8 +26,8 @@ theorem registry_ids_nodup (es : List ChatEv) : (ChatWorld.init.after es).reg.id
   (reachable_inv es).reg.ids_nodup
 
 /-- No member map lists an id twice, in every reachable state. -/
-theorem member_keys_nodup (es : List ChatEv) (cid : Nat) : ((ChatWorld.init.after es).memberIds cid).Nodup :=
-  ((reachable_inv es).members_sorted cid).nodup_keys
+theorem member_keys_nodup (es : List ChatEv) (cid : Nat) : ((ChatWorld.init.after es).entryIds cid).Nodup :=
+  ((reachable_inv es).entries_sorted cid).nodup_keys
 
 /-- Histories shorter than the id space never hand a remembered id to a newcomer. -/
 theorem short_history_no_stale_reuse (es : List ChatEv) (h : es.length < 65536) :
@@ -78,15 +78,15 @@ theorem public_line_denied (w : ChatWorld) (a r : Nat) (c : Client) (cid : Optio
 theorem private_line_audience (w : ChatWorld) (hw : w.Inv) (hns : w.NoStaleReuse) (a r cid : Nat) (c : Client)
     (opts : Option Bytes) (msg : Bytes) (hg : w.reg.get a = some c) (hsend : accessBit c.access 10 = true) :
     let outs := (w.step (.send a r (some cid) opts msg)).2
-    outs = (w.members cid).map (fun m => mkTran 106 m.1 [⟨114, be32 cid⟩, ⟨101, chatText c.name (isEmote opts) msg⟩]) ∧
-    outs.map (·.to) = w.memberIds cid ∧ (w.memberIds cid).Nodup ∧
+    outs = (w.entries cid).map (fun m => mkTran 106 m.1 [⟨114, be32 cid⟩, ⟨101, chatText c.name (isEmote opts) msg⟩]) ∧
+    outs.map (·.to) = w.entryIds cid ∧ (w.entryIds cid).Nodup ∧
     outs.filterMap (deliver w.reg) = (w.connectedMembers cid).map (·.2) ∧
     ((w.connectedMembers cid).map (·.2)).Nodup := by
   intro outs
-  have houts : outs = (w.members cid).map (fun m => mkTran 106 m.1 [⟨114, be32 cid⟩, ⟨101, chatText c.name (isEmote opts) msg⟩]) := by
+  have houts : outs = (w.entries cid).map (fun m => mkTran 106 m.1 [⟨114, be32 cid⟩, ⟨101, chatText c.name (isEmote opts) msg⟩]) := by
     show (w.step (.send a r (some cid) opts msg)).2 = _
     simp only [ChatWorld.step, hg, stepSend, hsend, Bool.not_true, Bool.false_eq_true, if_false]
-  refine ⟨houts, ?_, (hw.members_sorted cid).nodup_keys, ?_, w.connectedMembers_nodup hw cid⟩
+  refine ⟨houts, ?_, (hw.entries_sorted cid).nodup_keys, ?_, w.connectedMembers_nodup hw cid⟩
   · rw [houts, List.map_map]; rfl
   · rw [houts]; exact w.members_delivery hns cid _ (fun _ => rfl)
 
@@ -95,22 +95,22 @@ theorem subject_audience (w : ChatWorld) (hw : w.Inv) (hns : w.NoStaleReuse) (a 
     (hg : w.reg.get a = some c) :
     let w' := (w.step (.setSubject a r cid s)).1
     let outs := (w.step (.setSubject a r cid s)).2
-    w'.members cid = w.members cid ∧
-    outs = (w.members cid).map (fun m => mkTran 119 m.1 [⟨114, be32 cid⟩, ⟨115, s⟩]) ∧
+    w'.entries cid = w.entries cid ∧
+    outs = (w.entries cid).map (fun m => mkTran 119 m.1 [⟨114, be32 cid⟩, ⟨115, s⟩]) ∧
     outs.filterMap (deliver w.reg) = (w.connectedMembers cid).map (·.2) ∧
     ((w.connectedMembers cid).map (·.2)).Nodup := by
   intro w' outs
-  have hm : w'.members cid = w.members cid := by
-    show (w.step (.setSubject a r cid s)).1.members cid = _
+  have hm : w'.entries cid = w.entries cid := by
+    show (w.step (.setSubject a r cid s)).1.entries cid = _
     simp only [ChatWorld.step, hg, stepSetSubject]
-    rw [ChatWorld.members_modifyChat_same w cid (fun ch => { ch with subject := s })]
-    unfold ChatWorld.members
+    rw [ChatWorld.entries_modifyChat_same w cid (fun ch => { ch with subject := s })]
+    unfold ChatWorld.entries
     cases w.chat cid <;> rfl
-  have houts : outs = (w.members cid).map (fun m => mkTran 119 m.1 [⟨114, be32 cid⟩, ⟨115, s⟩]) := by
+  have houts : outs = (w.entries cid).map (fun m => mkTran 119 m.1 [⟨114, be32 cid⟩, ⟨115, s⟩]) := by
     show (w.step (.setSubject a r cid s)).2 = _
     simp only [ChatWorld.step, hg, stepSetSubject]
-    rw [ChatWorld.members_modifyChat_same w cid (fun ch => { ch with subject := s })]
-    unfold ChatWorld.members
+    rw [ChatWorld.entries_modifyChat_same w cid (fun ch => { ch with subject := s })]
+    unfold ChatWorld.entries
     cases w.chat cid <;> rfl
   refine ⟨hm, houts, ?_, w.connectedMembers_nodup hw cid⟩
   rw [houts]; exact w.members_delivery hns cid _ (fun _ => rfl)
@@ -120,14 +120,14 @@ theorem subject_audience (w : ChatWorld) (hw : w.Inv) (hns : w.NoStaleReuse) (a 
 theorem join_notice_audience (w : ChatWorld) (hw : w.Inv) (hns : w.NoStaleReuse) (a r cid : Nat) (c : Client)
     (hg : w.reg.get a = some c) :
     let outs := (w.step (.join a r cid)).2
-    ∃ reply, outs = (w.members cid).map (fun m => mkTran 117 m.1 ([⟨114, be32 cid⟩] ++ whoFieldsFull c)) ++ [reply] ∧
+    ∃ reply, outs = (w.entries cid).map (fun m => mkTran 117 m.1 ([⟨114, be32 cid⟩] ++ whoFieldsFull c)) ++ [reply] ∧
       reply.isReply = true ∧ reply.to = a ∧ reply.reqId = r ∧
-      ((w.members cid).map (fun m => mkTran 117 m.1 ([⟨114, be32 cid⟩] ++ whoFieldsFull c))).filterMap (deliver w.reg)
+      ((w.entries cid).map (fun m => mkTran 117 m.1 ([⟨114, be32 cid⟩] ++ whoFieldsFull c))).filterMap (deliver w.reg)
         = (w.connectedMembers cid).map (·.2) ∧
       ((w.connectedMembers cid).map (·.2)).Nodup := by
   intro outs
   have hid := (Registry.get_some hg).2
-  have houts : ∃ fs, outs = (w.members cid).map (fun m => mkTran 117 m.1 ([⟨114, be32 cid⟩] ++ whoFieldsFull c)) ++ [mkReply c r fs] := by
+  have houts : ∃ fs, outs = (w.entries cid).map (fun m => mkTran 117 m.1 ([⟨114, be32 cid⟩] ++ whoFieldsFull c)) ++ [mkReply c r fs] := by
     show ∃ fs, (w.step (.join a r cid)).2 = _ ++ [mkReply c r fs]
     simp only [ChatWorld.step, hg, stepJoin]
     exact ⟨_, rfl⟩
@@ -140,19 +140,19 @@ theorem leave_notice_audience (w : ChatWorld) (hw : w.Inv) (hns : w.NoStaleReuse
     (hg : w.reg.get a = some c) :
     let w' := (w.step (.leave a r cid)).1
     let outs := (w.step (.leave a r cid)).2
-    outs = (w'.members cid).map (fun m => mkTran 118 m.1 [⟨114, be32 cid⟩, ⟨103, be16 c.id⟩]) ∧
-    a ∉ w'.memberIds cid ∧ (∀ m, m ∈ w'.members cid ↔ m ∈ w.members cid ∧ m.1 ≠ a) ∧
+    outs = (w'.entries cid).map (fun m => mkTran 118 m.1 [⟨114, be32 cid⟩, ⟨103, be16 c.id⟩]) ∧
+    a ∉ w'.entryIds cid ∧ (∀ m, m ∈ w'.entries cid ↔ m ∈ w.entries cid ∧ m.1 ≠ a) ∧
     outs.filterMap (deliver w'.reg) = (w'.connectedMembers cid).map (·.2) ∧
     ((w'.connectedMembers cid).map (·.2)).Nodup := by
   intro w' outs
   have hid := (Registry.get_some hg).2
   have hw' : w'.Inv := ChatWorld.step_inv hw _
-  have hmem : ∀ m, m ∈ w'.members cid ↔ m ∈ w.members cid ∧ m.1 ≠ a := by
+  have hmem : ∀ m, m ∈ w'.entries cid ↔ m ∈ w.entries cid ∧ m.1 ≠ a := by
     intro m
-    show m ∈ (w.step (.leave a r cid)).1.members cid ↔ _
+    show m ∈ (w.step (.leave a r cid)).1.entries cid ↔ _
     simp only [ChatWorld.step, hg, stepLeave]
-    rw [ChatWorld.members_modifyChat_same w cid (fun ch => { ch with members := memDelete c.id ch.members })]
-    unfold ChatWorld.members
+    rw [ChatWorld.entries_modifyChat_same w cid (fun ch => { ch with members := memDelete c.id ch.members })]
+    unfold ChatWorld.entries
     cases w.chat cid with
     | none => simp
     | some ch => simp only [mem_memDelete, hid]
@@ -172,8 +172,8 @@ theorem leave_notice_audience (w : ChatWorld) (hw : w.Inv) (hns : w.NoStaleReuse
     split at hm
     · exact hns ch hch m (mem_memDelete.mp hm).1 x hx' hxid
     · exact hns ch hch m hm x hx' hxid
-  have houts : outs = (w'.members cid).map (fun m => mkTran 118 m.1 [⟨114, be32 cid⟩, ⟨103, be16 c.id⟩]) := by
-    show (w.step (.leave a r cid)).2 = ((w.step (.leave a r cid)).1.members cid).map _
+  have houts : outs = (w'.entries cid).map (fun m => mkTran 118 m.1 [⟨114, be32 cid⟩, ⟨103, be16 c.id⟩]) := by
+    show (w.step (.leave a r cid)).2 = ((w.step (.leave a r cid)).1.entries cid).map _
     simp only [ChatWorld.step, hg, stepLeave]
   refine ⟨houts, (w.leave_removes a r cid c hg).1, hmem, ?_, w'.connectedMembers_nodup hw' cid⟩
   rw [houts]; exact w'.members_delivery hns' cid _ (fun _ => rfl)
@@ -183,11 +183,11 @@ theorem leave_notice_audience (w : ChatWorld) (hw : w.Inv) (hns : w.NoStaleReuse
 theorem decline_notice_audience (w : ChatWorld) (hw : w.Inv) (hns : w.NoStaleReuse) (a r cid : Nat) (c : Client)
     (hg : w.reg.get a = some c) :
     (w.step (.decline a r cid)).1 = w ∧
-    (w.step (.decline a r cid)).2 = (w.members cid).map (fun m =>
+    (w.step (.decline a r cid)).2 = (w.entries cid).map (fun m =>
       mkTran 106 m.1 [⟨114, be32 cid⟩, ⟨101, c.name ++ str " declined invitation to chat"⟩]) ∧
     (w.step (.decline a r cid)).2.filterMap (deliver w.reg) = (w.connectedMembers cid).map (·.2) ∧
     ((w.connectedMembers cid).map (·.2)).Nodup := by
-  have houts : (w.step (.decline a r cid)).2 = (w.members cid).map (fun m =>
+  have houts : (w.step (.decline a r cid)).2 = (w.entries cid).map (fun m =>
       mkTran 106 m.1 [⟨114, be32 cid⟩, ⟨101, c.name ++ str " declined invitation to chat"⟩]) := by
     simp only [ChatWorld.step, hg, stepDecline]
   refine ⟨by simp only [ChatWorld.step, hg, stepDecline], houts, ?_, w.connectedMembers_nodup hw cid⟩
@@ -224,7 +224,7 @@ theorem emote_iff (opts : Option Bytes) : isEmote opts = true ↔ opts = some [0
     (lines, join / leave / subject notices), through any continuation of the history in which that id
     does not join (or create) the chat. -/
 theorem nonmember_is_silent (w : ChatWorld) (i cid : Nat) (hcid : cid < 4294967296)
-    (hnot : i ∉ w.memberIds cid) (es : List ChatEv) (hwf : ∀ e ∈ es, e.WF)
+    (hnot : i ∉ w.entryIds cid) (es : List ChatEv) (hwf : ∀ e ∈ es, e.WF)
     (hno : ∀ e ∈ es, e.joins i cid = false) :
     ∀ os ∈ (w.run es).2, ∀ o ∈ os, o.chatTraffic cid = true → o.to ≠ i := by
   induction es generalizing w with
@@ -255,7 +255,7 @@ theorem left_is_silent (w : ChatWorld) (i r cid : Nat) (c : Client) (hg : w.reg.
 
 /-- Somebody who declines an invitation (not being a member) is addressed by none of the chat's
     traffic — not even the decline notice — until it joins. -/
-theorem decliner_is_silent (w : ChatWorld) (i r cid : Nat) (hcid : cid < 4294967296) (hnot : i ∉ w.memberIds cid)
+theorem decliner_is_silent (w : ChatWorld) (i r cid : Nat) (hcid : cid < 4294967296) (hnot : i ∉ w.entryIds cid)
     (es : List ChatEv) (hwf : ∀ e ∈ es, e.WF) (hno : ∀ e ∈ es, e.joins i cid = false) :
     ∀ os ∈ (w.run (.decline i r cid :: es)).2, ∀ o ∈ os, o.chatTraffic cid = true → o.to ≠ i :=
   nonmember_is_silent w i cid hcid hnot (.decline i r cid :: es)
@@ -372,7 +372,7 @@ private def demo : List ChatEv :=
    .inviteNew 1 7 2 99, .join 2 8 99, .join 3 9 99, .leave 3 10 99]
 
 -- three users, a chat with members 1 and 2 after 3 left; user 3 has send-chat only
-example : (ChatWorld.init.after demo).memberIds 99 = [1, 2] := by decide +kernel
+example : (ChatWorld.init.after demo).entryIds 99 = [1, 2] := by decide +kernel
 example : (ChatWorld.init.after demo).reg.ids = [1, 2, 3] := by decide +kernel
 example : (ChatWorld.init.after demo).NoStaleReuse := short_history_no_stale_reuse demo (by decide)
 -- a public line from user 3 goes to users 1 and 2 (readers) and not back to 3 (no read-chat)
